@@ -16,11 +16,11 @@ import (
 	"encoding/hex"
 	"errors"
 	"fmt"
-	"math/bits"
 	"sort"
 	"strconv"
 	"strings"
 
+	"verifharness/c09/mine"
 	"verifharness/hx"
 
 	"github.com/iotaledger/hive.go/ads"
@@ -316,23 +316,13 @@ func maxLCP(m map[string][]byte) int {
 	best := -1
 	for i := range hs {
 		for j := i + 1; j < len(hs); j++ {
-			if l := lcpBits(hs[i], hs[j]); l > best {
+			if l := mine.LCPBits(hs[i], hs[j]); l > best {
 				best = l
 			}
 		}
 	}
 
 	return best
-}
-
-func lcpBits(a, b [32]byte) int {
-	for i := 0; i < 32; i++ {
-		if x := a[i] ^ b[i]; x != 0 {
-			return i*8 + bits.LeadingZeros8(x)
-		}
-	}
-
-	return 256
 }
 
 // exec interprets one request line on the real code and evaluates the oracles on the answer.
@@ -683,76 +673,6 @@ func (ss *session) checkStream(in *inst, ps []pair, end string, stop int) {
 }
 
 // ---------------------------------------------------------------------------------------------
-// key mining: keys whose sha256 paths share long prefixes (extension nodes in the trie)
-
-type cluster struct {
-	core     []string // >= 16 common leading path bits
-	near     []string // 12..15 common bits with the core
-	far      []string // 8..11 common bits with the core
-	stranger []string // other first byte
-}
-
-func mineClusters(want int) []cluster {
-	const n = 1 << 18
-	buckets := make(map[uint16][]uint32, 1<<16)
-	for i := uint32(0); i < n; i++ {
-		h := sha256.Sum256([]byte{byte(i >> 16), byte(i >> 8), byte(i)})
-		b := uint16(h[0])<<8 | uint16(h[1])
-		if len(buckets[b]) < 4 {
-			buckets[b] = append(buckets[b], i)
-		}
-	}
-	key := func(i uint32) string { return hex.EncodeToString([]byte{byte(i >> 16), byte(i >> 8), byte(i)}) }
-	var out []cluster
-	for b := 0; b < 1<<16 && len(out) < want; b += 977 { // spread over the path space, deterministically
-		bb := uint16(b)
-		for len(buckets[bb]) < 3 {
-			bb++
-		}
-		c := cluster{}
-		for _, i := range buckets[bb][:3] {
-			c.core = append(c.core, key(i))
-		}
-		for d := uint16(1); d < 16 && len(c.near) < 2; d++ {
-			o := bb ^ d // same top 12 bits, different low 4
-			if len(buckets[o]) > 0 {
-				c.near = append(c.near, key(buckets[o][0]))
-			}
-		}
-		for d := uint16(1); d < 16 && len(c.far) < 2; d++ {
-			o := bb ^ (d << 4) // same top 8 bits, differs within bits 8..11
-			if len(buckets[o]) > 0 {
-				c.far = append(c.far, key(buckets[o][0]))
-			}
-		}
-		for d := uint16(1); len(c.stranger) < 2; d++ {
-			o := bb ^ (d << 13)
-			if len(buckets[o]) > 0 {
-				c.stranger = append(c.stranger, key(buckets[o][0]))
-			}
-		}
-		out = append(out, c)
-	}
-	// self-check: the mined keys really have the advertised common prefixes
-	for _, c := range out {
-		h0 := sha256.Sum256(hx.UnHex(c.core[0]))
-		chk := func(ks []string, lo, hi int) {
-			for _, k := range ks {
-				if l := lcpBits(h0, sha256.Sum256(hx.UnHex(k))); l < lo || l > hi {
-					panic(fmt.Sprintf("mined key %s shares %d bits with %s, wanted %d..%d", k, l, c.core[0], lo, hi))
-				}
-			}
-		}
-		chk(c.core[1:], 16, 255)
-		chk(c.near, 12, 15)
-		chk(c.far, 8, 11)
-		chk(c.stranger, 0, 2)
-	}
-
-	return out
-}
-
-// ---------------------------------------------------------------------------------------------
 // generation
 
 var plainValues = []string{"nil", "-", "61", "62", "00", "ff",
@@ -933,14 +853,14 @@ func merge(rng *hx.Rng, hs [][]string) []string {
 	}
 }
 
-func genSession(rng *hx.Rng, clusters []cluster, nOps int) []string {
+func genSession(rng *hx.Rng, clusters []mine.Cluster, nOps int) []string {
 	c := hx.Pick(rng, clusters)
 	g := &gen{rng: rng}
 	// key alphabet: the long-prefix core, some nearer and farther relatives, strangers, odd lengths
-	g.keys = append(g.keys, c.core...)
-	g.keys = append(g.keys, c.near[rng.Intn(len(c.near))], c.far[rng.Intn(len(c.far))], c.stranger[rng.Intn(len(c.stranger))])
+	g.keys = append(g.keys, c.Core...)
+	g.keys = append(g.keys, c.Near[rng.Intn(len(c.Near))], c.Far[rng.Intn(len(c.Far))], c.Stranger[rng.Intn(len(c.Stranger))])
 	if rng.Chance(1, 3) {
-		g.keys = append(g.keys, hx.Pick(rng, []string{"-", "41", "4142434445", c.core[0] + "00"}))
+		g.keys = append(g.keys, hx.Pick(rng, []string{"-", "41", "4142434445", c.Core[0] + "00"}))
 	}
 	nInst := rng.Range(2, 4)
 	mode := rng.Intn(10)
@@ -1050,30 +970,30 @@ func main() {
 
 		return
 	}
-	clusters := mineClusters(24)
+	clusters := mine.Clusters(24)
 	r.Extra["mined_clusters"] = len(clusters)
-	r.Extra["example_cluster"] = map[string][]string{"share>=16bits": clusters[0].core, "share12..15bits": clusters[0].near,
-		"share8..11bits": clusters[0].far, "strangers": clusters[0].stranger}
+	r.Extra["example_cluster"] = map[string][]string{"share>=16bits": clusters[0].Core, "share12..15bits": clusters[0].Near,
+		"share8..11bits": clusters[0].Far, "strangers": clusters[0].Stranger}
 	k := clusters[0]
 	// corpus: hand-written histories and minimised past failures run first
 	corpus := [][]string{
 		// a nil-encoded empty value is a value (was: invisible to Has/Get/Delete but counted and streamed)
-		{"open 0 map", "set 0 " + k.core[0] + " nil", "has 0 " + k.core[0], "get 0 " + k.core[0], "size 0", "set 0 " + k.core[0] + " nil", "size 0",
-			"stream 0 0", "root 0", "del 0 " + k.core[0], "size 0", "root 0"},
+		{"open 0 map", "set 0 " + k.Core[0] + " nil", "has 0 " + k.Core[0], "get 0 " + k.Core[0], "size 0", "set 0 " + k.Core[0] + " nil", "size 0",
+			"stream 0 0", "root 0", "del 0 " + k.Core[0], "size 0", "root 0"},
 		// set flavour, map with empty values and map with nil-encoded values: one root class
-		{"open 0 set", "open 1 map", "open 2 map", "add 0 " + k.core[0], "add 0 " + k.core[1], "set 1 " + k.core[1] + " -", "set 1 " + k.core[0] + " 61",
-			"set 1 " + k.core[0] + " -", "set 2 " + k.core[0] + " nil", "set 2 " + k.core[2] + " 00", "set 2 " + k.core[1] + " nil", "del 2 " + k.core[2],
-			"root 0", "root 1", "root 2", "commit 1", "reopen 1", "root 1", "has 1 " + k.core[0], "size 1", "stream 1 0"},
+		{"open 0 set", "open 1 map", "open 2 map", "add 0 " + k.Core[0], "add 0 " + k.Core[1], "set 1 " + k.Core[1] + " -", "set 1 " + k.Core[0] + " 61",
+			"set 1 " + k.Core[0] + " -", "set 2 " + k.Core[0] + " nil", "set 2 " + k.Core[2] + " 00", "set 2 " + k.Core[1] + " nil", "del 2 " + k.Core[2],
+			"root 0", "root 1", "root 2", "commit 1", "reopen 1", "root 1", "has 1 " + k.Core[0], "size 1", "stream 1 0"},
 		// extension nodes: split, join and absorb across commit / reopen (lazy nodes)
-		{"open 0 map", "open 1 map", "set 0 " + k.core[0] + " 61", "set 0 " + k.core[1] + " 62", "commit 0", "reopen 0", "set 0 " + k.near[0] + " 61", "root 0",
-			"set 0 " + k.core[2] + " 00", "commit 0", "reopen 0", "del 0 " + k.near[0], "del 0 " + k.core[2], "root 0", "set 1 " + k.core[1] + " 62", "set 1 " + k.core[0] + " 61",
-			"root 1", "del 0 " + k.core[1], "root 0", "del 1 " + k.core[1], "root 1", "commit 0", "reopen 0", "restored 0", "restored 1", "size 0", "stream 0 0"},
+		{"open 0 map", "open 1 map", "set 0 " + k.Core[0] + " 61", "set 0 " + k.Core[1] + " 62", "commit 0", "reopen 0", "set 0 " + k.Near[0] + " 61", "root 0",
+			"set 0 " + k.Core[2] + " 00", "commit 0", "reopen 0", "del 0 " + k.Near[0], "del 0 " + k.Core[2], "root 0", "set 1 " + k.Core[1] + " 62", "set 1 " + k.Core[0] + " 61",
+			"root 1", "del 0 " + k.Core[1], "root 0", "del 1 " + k.Core[1], "root 1", "commit 0", "reopen 0", "restored 0", "restored 1", "size 0", "stream 0 0"},
 		// un-committed changes are not seen by a new instance, but the raw keys and the size are
-		{"open 0 map", "set 0 " + k.core[0] + " 61", "commit 0", "set 0 " + k.core[1] + " 62", "del 0 " + k.core[0], "reopen 0", "size 0", "stream 0 0",
-			"has 0 " + k.core[0], "has 0 " + k.core[1], "del 0 " + k.core[0], "size 0", "del 0 " + k.core[0], "root 0"},
+		{"open 0 map", "set 0 " + k.Core[0] + " 61", "commit 0", "set 0 " + k.Core[1] + " 62", "del 0 " + k.Core[0], "reopen 0", "size 0", "stream 0 0",
+			"has 0 " + k.Core[0], "has 0 " + k.Core[1], "del 0 " + k.Core[0], "size 0", "del 0 " + k.Core[0], "root 0"},
 		// serializer failures leave everything untouched
-		{"open 0 map", "set 0 ee01 61", "set 0 " + k.core[0] + " ee01", "set 0 ee01 ee01", "size 0", "root 0", "set 0 " + k.core[0] + " dd01", "get 0 " + k.core[0],
-			"set 0 " + k.far[0] + " cc0102", "get 0 " + k.far[0], "stream 0 0", "stream 0 1", "has 0 ee01", "del 0 ee01", "get 0 ee01", "size 0", "root 0"},
+		{"open 0 map", "set 0 ee01 61", "set 0 " + k.Core[0] + " ee01", "set 0 ee01 ee01", "size 0", "root 0", "set 0 " + k.Core[0] + " dd01", "get 0 " + k.Core[0],
+			"set 0 " + k.Far[0] + " cc0102", "get 0 " + k.Far[0], "stream 0 0", "stream 0 1", "has 0 ee01", "del 0 ee01", "get 0 ee01", "size 0", "root 0"},
 	}
 	for _, c := range corpus {
 		runCase(r, 0, c)
